@@ -201,6 +201,7 @@ func parseErr(spec string) error {
 
 type scenario struct {
 	rpc   string // u unary | s server-streaming | c client-streaming
+	srv   bool   // upper-case rpc letter: through a real net/http server on loopback instead of a ResponseRecorder
 	inj   string // none router bind decode create target deadline
 	err   error
 	gone  bool     // the client's request context is cancelled right before the injected error is produced
@@ -256,6 +257,10 @@ func parseScenario(f []string) *scenario {
 	}
 	sc := &scenario{}
 	sc.rpc = kv(f[1], "rpc")
+	if sc.rpc == "U" || sc.rpc == "S" || sc.rpc == "C" {
+		sc.srv = true
+		sc.rpc = strings.ToLower(sc.rpc)
+	}
 	sc.inj = kv(f[2], "inj")
 	if e := kv(f[3], "err"); e != "-" {
 		sc.err = parseErr(e)
@@ -697,11 +702,34 @@ func execE2E(sc *scenario) string {
 		cancel()
 	}
 
-	w := httptest.NewRecorder()
-	bridge.ServeHTTP(w, req)
-	res := w.Result()
-	body, _ := io.ReadAll(res.Body)
-
+	var res *http.Response
+	var body []byte
+	if sc.srv && !sc.gone {
+		// the same request over TCP through net/http's server and client (no client-side cancellation here)
+		srv := httptest.NewServer(bridge)
+		defer srv.Close()
+		creq, err := http.NewRequest("POST", srv.URL+"/x", strings.NewReader(string(sc.body)))
+		if err != nil {
+			return "SRVERR " + common.HexS(err.Error())
+		}
+		creq.Header = req.Header.Clone()
+		creq.Header["Accept-Encoding"] = []string{"identity"}
+		cres, err := srv.Client().Do(creq)
+		if err != nil {
+			return "SRVERR " + common.HexS(err.Error())
+		}
+		body, _ = io.ReadAll(cres.Body)
+		cres.Body.Close()
+		res = cres
+		for _, k := range []string{"Date", "Content-Length"} {
+			res.Header.Del(k)
+		}
+	} else {
+		w := httptest.NewRecorder()
+		bridge.ServeHTTP(w, req)
+		res = w.Result()
+		body, _ = io.ReadAll(res.Body)
+	}
 	ctVals, ctPresent := res.Header["Content-Type"]
 	xcto, xctoPresent := res.Header["X-Content-Type-Options"]
 	ct := ""
@@ -986,6 +1014,21 @@ func (Area) Gen(r *rand.Rand, tier string, emit func(string)) {
 				}
 			}
 		}
+		// the same through a real net/http server for one code per origin and detail payload
+		for _, origin := range injOrigins {
+			for _, det := range detailCombos {
+				l := line{rpc: "U", inj: origin, err: sErr(5, "over tcp", det), ct: cc.ct, acc: cc.acc, ra: "name", rb: "owner"}
+				if origin == "target" {
+					l.md = stdMD
+				}
+				emit(l.String())
+				count("e2e.server")
+			}
+		}
+		emit(line{rpc: "U", inj: "none", ct: cc.ct, acc: cc.acc, n: 1, ra: "tcp", rb: "ok", rbp: "owner", md: stdMD}.String())
+		emit(line{rpc: "S", inj: "none", ct: cc.ct, acc: cc.acc, n: 2, ra: "tcp", rb: "ok", md: stdMD}.String())
+		emit(line{rpc: "S", inj: "target", err: sErr(13, "late", "-"), ct: cc.ct, acc: cc.acc, n: 1, ra: "tcp", rb: "ok", md: stdMD}.String())
+		emit(line{rpc: "U", inj: "deadline", ct: cc.ct, acc: cc.acc, tmo: "1m"}.String())
 		// deadline origin (real grpc-timeout expiry against a target that never answers), success, natural failures
 		for _, tmo := range []string{"1n", "1m"} {
 			emit(line{rpc: "u", inj: "deadline", ct: cc.ct, acc: cc.acc, tmo: tmo, ra: "a", rb: "b"}.String())
